@@ -390,6 +390,13 @@ func (i *Interface) PutMany(dbName string) (put func(record.Record) error) {
 	finished := abool.New()
 	var internalErr error
 
+	// The batch bypasses the read cache. Remember the keys of all submitted
+	// records in order to drop their (then outdated) cache entries when the
+	// batch is finished. This is not possible for an interface with delayed
+	// writes, as these are flushed with PutMany themselves.
+	invalidateCache := i.cache != nil && i.writeCache == nil
+	var submittedKeys []string
+
 	// interface options proxy
 	go func() {
 		defer close(dbBatch) // signify that we are finished
@@ -434,7 +441,11 @@ func (i *Interface) PutMany(dbName string) (put func(record.Record) error) {
 			finished.Set()
 			interfaceBatch <- nil // signify that we are finished
 			// do not close, as this fn could be called again with nil.
-			return <-errs
+			err := <-errs
+			for _, key := range submittedKeys {
+				i.cache.Remove(key)
+			}
+			return err
 		}
 
 		// check record scope
@@ -445,6 +456,9 @@ func (i *Interface) PutMany(dbName string) (put func(record.Record) error) {
 		// submit
 		select {
 		case interfaceBatch <- r:
+			if invalidateCache {
+				submittedKeys = append(submittedKeys, r.Key())
+			}
 			return nil
 		case err := <-errs:
 			return err
@@ -567,6 +581,10 @@ func (i *Interface) Purge(ctx context.Context, q *query.Query) (int, error) {
 	if db.ReadOnly() {
 		return 0, ErrReadOnly
 	}
+
+	// The purge bypasses the read cache: clear it, as it cannot be told which
+	// of the cached records were purged.
+	defer i.ClearCache()
 
 	return db.Purge(ctx, q, i.options.Local, i.options.Internal)
 }
